@@ -34,6 +34,35 @@ pub struct Case {
   pub hx: Vec<u8>,
   /// observer history applied to y only
   pub hy: Vec<u8>,
+  /// Some(k): x is built through `build_observed`: observer k (source, size, hash, map(true), map(false),
+  /// buffer) is called on every ReplaceSource / ConcatSource under construction after each of its
+  /// mutating calls; y and the fresh twin are built without
+  #[serde(default)]
+  pub observed_build: Option<u8>,
+}
+
+fn observe_during_build(s: &dyn Source, k: u8) {
+  match k % 6 {
+    0 => {
+      let _ = s.source();
+    }
+    1 => {
+      let _ = s.size();
+    }
+    2 => {
+      let mut st = std::collections::hash_map::DefaultHasher::new();
+      s.update_hash(&mut st);
+    }
+    3 => {
+      let _ = s.map(&opts(true, false));
+    }
+    4 => {
+      let _ = s.map(&opts(false, false));
+    }
+    _ => {
+      let _ = s.buffer();
+    }
+  }
 }
 
 fn cfg() -> GenCfg {
@@ -50,8 +79,9 @@ fn strategy() -> BoxedStrategy<Case> {
     prop_oneof![1 => Just(None), 2 => any::<u16>().prop_map(Some)],
     vec(0u8..OBS.len() as u8, 0..=5),
     prop_oneof![2 => Just(vec![]), 1 => vec(0u8..OBS.len() as u8, 0..=4)],
+    prop_oneof![3 => Just(None), 1 => (0u8..6u8).prop_map(Some)],
   )
-    .prop_map(|(x, edit, hx, hy)| Case { shared_map: None, x, edit, hx, hy })
+    .prop_map(|(x, edit, hx, hy, observed_build)| Case { shared_map: None, x, edit, hx, hy, observed_build })
     .boxed()
 }
 
@@ -60,7 +90,7 @@ fn shared_map_strategy() -> BoxedStrategy<Case> {
   (crate::gen::text(true, 8), crate::gen::abs_map(cfg), 0u8..SETTERS.len() as u8, 0u8..4u8, vec(0u8..OBS.len() as u8, 0..=3))
     .prop_map(move |(text, am, setter, wrap, hx)| {
       let map = crate::gen::concretize_map(&text, &am, true);
-      Case { shared_map: Some((setter, wrap)), x: Spec::Sms { text, name: "g.js".into(), map }, edit: None, hx, hy: vec![] }
+      Case { shared_map: Some((setter, wrap)), x: Spec::Sms { text, name: "g.js".into(), map }, edit: None, hx, hy: vec![], observed_build: None }
     })
     .boxed()
 }
@@ -212,7 +242,8 @@ impl Prop for C14 {
     "pairs (x, y) of ASCII trees (all source types incl. binary leaves): y is built from the same Spec, or from x with \
      one edit (a leaf, file name, replacement field, child, map field, option or type tag; edit::all_edits) at any depth; \
      an observer history (<=5 of source/buffer/size/rope/map/stream/hash/clone/eq/Debug) is applied to x only and \
-     another to y only between comparisons. Checks: same Spec => equal, equal hash, equal observations; x == y => equal \
+     another to y only between comparisons; in a quarter of the cases x is built with an observer called on every ReplaceSource / ConcatSource \
+     under construction after each of its mutating calls. Checks: same Spec => equal, equal hash, equal observations; x == y => equal \
      hash and observations; eq symmetric; clone equal and observationally identical; eq and hash unchanged by histories; \
      observers repeatable. Non-trivial: a non-empty history on exactly one operand; distinct by hash of the case JSON".into()
   }
@@ -246,7 +277,10 @@ impl Prop for C14 {
           exact = wrap != 1;
           (x, y)
         }
-        None => (build(xs), build(&ys)),
+        None => match case.observed_build {
+          Some(k) => (crate::build::build_observed(xs, &mut |s| observe_during_build(s, k)), build(&ys)),
+          None => (build(xs), build(&ys)),
+        },
       };
       // before any observer
       let eq0 = *x == *y;
@@ -323,6 +357,7 @@ impl Prop for C14 {
       Ok(
         CaseInfo::nt(case.hx.is_empty() != case.hy.is_empty())
           .class(same_spec, "pair built from the same Spec")
+          .class(case.observed_build.is_some() && xs.any(&|s| matches!(s, Spec::Replace { repls, .. } if repls.len() >= 2)), "x observed while under construction (>=2 replacements)")
           .class(!same_spec && eq0, "different construction, compares equal")
           .class(!same_spec && !eq0, "one edit apart, compares unequal")
           .class(kind.starts_with("type tag"), "type tag edit")
